@@ -104,6 +104,14 @@ fn to_func(s: &Sx) -> Option<Func> {
             body: to_blk(body)?,
             sig: None,
         }),
+        // (attrs (name...) FUNC)
+        ("attrs", [names_list, f]) => {
+            let mut f = to_func(f)?;
+            let mut sig = f.sig.take().map(|b| *b).unwrap_or_default();
+            sig.attrs = names(names_list)?;
+            f.sig = if sig.is_empty() { None } else { Some(Box::new(sig)) };
+            Some(f)
+        }
         // (funct (generics) ((name type|-)...) variadic(n | v | <tvar>) ret(- | ...) body)
         ("funct", [generics, params, variadic, ret, body]) => {
             let mut sig = Sig { generics: to_generics(generics)?, ..Default::default() };
@@ -173,7 +181,7 @@ pub fn to_ex(s: &Sx) -> Option<Ex> {
         ("index", [p, k]) => Ex::Index(Box::new(to_ex(p)?), Box::new(to_ex(k)?)),
         ("call", [p, a]) => Ex::Call(Box::new(to_ex(p)?), None, to_args(a)?),
         ("mcall", [p, m, a]) => Ex::Call(Box::new(to_ex(p)?), Some(atom(m)?.to_owned()), to_args(a)?),
-        ("func", _) | ("funct", _) => Ex::Func(Box::new(to_func(s)?)),
+        ("func", _) | ("funct", _) | ("attrs", _) => Ex::Func(Box::new(to_func(s)?)),
         ("table", entries) => Ex::Table(to_entries(entries)?),
         ("ifexp", [c, r, e, branches @ ..]) => Ex::IfExp(
             Box::new(to_ex(c)?),
@@ -188,6 +196,23 @@ pub fn to_ex(s: &Sx) -> Option<Ex> {
             Box::new(to_ex(e)?),
         ),
         ("cast", [x, t]) => Ex::Cast(Box::new(to_ex(x)?), to_ty(t)?),
+        ("inst", [p, types @ ..]) => Ex::Inst(Box::new(to_ex(p)?), types.iter().map(to_ty).collect::<Option<_>>()?),
+        ("mcallinst", [p, m, types, a]) => Ex::MethodInst(
+            Box::new(to_ex(p)?),
+            atom(m)?.to_owned(),
+            list(types)?.iter().map(to_ty).collect::<Option<_>>()?,
+            to_args(a)?,
+        ),
+        ("interp", segments) => Ex::Interp(
+            segments
+                .iter()
+                .map(|seg| match head(seg)? {
+                    ("seg", [v]) => Some(Seg::Str(unhex(atom(v)?)?)),
+                    ("val", [v]) => Some(Seg::Val(to_ex(v)?)),
+                    _ => None,
+                })
+                .collect::<Option<_>>()?,
+        ),
         _ => return None,
     })
 }
@@ -212,6 +237,26 @@ fn to_st(s: &Sx) -> Option<St> {
             atom(name)?.to_owned(),
             to_generics(generics)?,
             to_ty(t)?,
+        ),
+        ("typefunction", [exp, name, f]) => St::TypeFunction(atom(exp)? == "exp", atom(name)?.to_owned(), to_func(f)?),
+        ("gfort", [ns, es, b]) => St::GForT(
+            list(ns)?
+                .iter()
+                .map(|p| match list(p)? {
+                    [name, t] => Some((atom(name)?.to_owned(), if atom(t) == Some("-") { None } else { Some(to_ty(t)?) })),
+                    _ => None,
+                })
+                .collect::<Option<_>>()?,
+            exprs(list(es)?)?,
+            to_blk(b)?,
+        ),
+        ("nfort", [n, t, a, b, step, body]) => St::NForT(
+            atom(n)?.to_owned(),
+            to_ty(t)?,
+            to_ex(a)?,
+            to_ex(b)?,
+            if atom(step) == Some("-") { None } else { Some(to_ex(step)?) },
+            to_blk(body)?,
         ),
         ("do", [b]) => St::Do(to_blk(b)?),
         ("callst", [c]) => St::CallSt(to_ex(c)?),
@@ -296,6 +341,15 @@ fn args_str(a: &Args) -> String {
     }
 }
 fn func_str(f: &Func) -> String {
+    if let Some(sig) = &f.sig {
+        if !sig.attrs.is_empty() {
+            let mut inner = f.clone();
+            let mut s2 = (**sig).clone();
+            s2.attrs.clear();
+            inner.sig = if s2.is_empty() { None } else { Some(Box::new(s2)) };
+            return format!("(attrs ({}) {})", sig.attrs.join(" "), func_str(&inner));
+        }
+    }
     match &f.sig {
         None => format!("(func ({}) {} {})", f.params.join(" "), if f.variadic { "v" } else { "n" }, blk_str(&f.body)),
         Some(sig) => format!(
@@ -349,6 +403,17 @@ pub fn ex_str(e: &Ex) -> String {
             join(br.iter().map(|(a, b)| format!("(elif {} {})", ex_str(a), ex_str(b))))
         ),
         Ex::Cast(x, t) => format!("(cast {} {})", ex_str(x), ty_str(t)),
+        Ex::Inst(p, types) => format!("(inst {} {})", ex_str(p), join(types.iter().map(ty_str))),
+        Ex::MethodInst(p, m, types, a) => {
+            format!("(mcallinst {} {} ({}) {})", ex_str(p), m, join(types.iter().map(ty_str)), args_str(a))
+        }
+        Ex::Interp(segments) => format!(
+            "(interp {})",
+            join(segments.iter().map(|s| match s {
+                Seg::Str(v) => format!("(seg {})", hex(v)),
+                Seg::Val(v) => format!("(val {})", ex_str(v)),
+            }))
+        ),
     }
 }
 fn st_str(s: &St) -> String {
@@ -364,6 +429,22 @@ fn st_str(s: &St) -> String {
         St::TypeDecl(e, name, g, t) => {
             format!("(typedecl {} {} {} {})", if *e { "exp" } else { "loc" }, name, generics_str(g), ty_str(t))
         }
+        St::TypeFunction(e, name, f) => format!("(typefunction {} {} {})", if *e { "exp" } else { "loc" }, name, func_str(f)),
+        St::GForT(n, e, b) => format!(
+            "(gfort ({}) {} {})",
+            n.iter().map(|(name, t)| format!("({} {})", name, t.as_ref().map_or("-".to_owned(), ty_str))).collect::<Vec<_>>().join(" "),
+            list(e),
+            blk_str(b)
+        ),
+        St::NForT(n, t, a, b, s, body) => format!(
+            "(nfort {} {} {} {} {} {})",
+            n,
+            ty_str(t),
+            ex_str(a),
+            ex_str(b),
+            s.as_ref().map_or("-".to_owned(), ex_str),
+            blk_str(body)
+        ),
         St::Do(b) => format!("(do {})", blk_str(b)),
         St::CallSt(c) => format!("(callst {})", ex_str(c)),
         St::Compound(op, a, b) => format!("(compound {} {} {})", COMPOUND[*op], ex_str(a), ex_str(b)),
